@@ -103,9 +103,13 @@ Fixpoint path_eqb (a b : path) : bool :=
   | _, _ => false
   end.
 
-(* two different suffixes one of which is a prefix of the other *)
+(* two different NON-EMPTY suffixes one of which is a prefix of the other (an empty suffix - a rule matched in full -
+   is harmless: pruning it uses up the whole value whatever the order) *)
 Definition overlapping (ss : list path) : bool :=
-  existsb (fun a => existsb (fun b => negb (path_eqb a b) && is_prefix a b) ss) ss.
+  existsb (fun a => match a with
+                    | [] => false
+                    | _ :: _ => existsb (fun b => negb (path_eqb a b) && is_prefix a b) ss
+                    end) ss.
 
 (* getValuesThroughPaths for a literal suffix: the nested value under the suffix; error if a level is not a map or
    the key is missing *)
@@ -437,25 +441,82 @@ Definition mismatch (c : case) : bool :=
 (* the property on the implementation's observed behaviour:
    - a Get that returned a value although no readable rule matches the request, or a Set/Unset that was accepted
      although no writeable rule matches it, is an access violation;
-   - a commit that reported failure must leave the committed databag as it was, and every non-commit operation must
-     leave it as it was (the driver reports the committed bag after every operation through BBag for commits and
-     news only, so this is checked on those). *)
-Fixpoint monitor (rules : list rule) (cur : bag) (steps : list (op * obs)) : bool :=
+   - a commit that reported failure must leave the committed databag as it was, and New must show it as it was;
+   - read-after-write: the Gets that directly follow an accepted Set in the same transaction must return what was
+     written, whenever that is determined without knowing the order of the writes: the Get request g is req ++ sf for a
+     writeable rule matched by the Set with literal unmatched suffix sf and storage path p, g is matched by exactly one
+     rule of the view, in full, and that rule is read-write; no other write of the same Set goes to p or below p;
+     the transaction holds no Unset and no null write (those may make the whole delta list fail). Then the Get must
+     return the value found under sf in the Set value, nulls stripped. *)
+Fixpoint has_null (t : tree) : bool :=
+  match t with
+  | Null => true
+  | Atom _ => false
+  | Obj l => existsb (fun kv => has_null (snd kv)) l
+  end.
+
+Definition all_rules (_ : rule) : bool := true.
+
+Definition expected_readback (rules : list rule) (req : path) (v : tree) (g : path) : option tree :=
+  match literal_matches (matches writeable rules req) with
+  | None => None
+  | Some lms =>
+      if overlapping (map snd lms) then None else
+      match matches all_rules rules g, matches readable rules g, matches writeable rules g with
+      | [(sp, [])], [_], [_] =>
+          match lits sp with
+          | None => None
+          | Some p =>
+              match filter (fun m => path_eqb (fst m) p && path_eqb g (req ++ snd m)) lms,
+                    filter (fun m => is_prefix p (fst m)) lms with
+              | [m], [_] => match value_at (snd m) v with
+                            | Some Null | None => None
+                            | Some x => Some (strip x)
+                            end
+              | _, _ => None
+              end
+          end
+      | _, _, _ => None
+      end
+  end.
+
+Fixpoint readback_bad (rules : list rule) (i : nat) (req : path) (v : tree) (steps : list (op * obs)) : bool :=
+  match steps with
+  | (OGet j g, seen) :: r =>
+      if Nat.eqb i j then
+        (match expected_readback rules req v g, seen with
+         | Some x, BVal s => negb (vres_eqb s (VOk x))
+         | _, _ => false
+         end) || readback_bad rules i req v r
+      else false
+  | _ => false
+  end.
+
+Fixpoint monitor (rules : list rule) (cur : bag) (tainted : list nat) (steps : list (op * obs)) : bool :=
   match steps with
   | [] => false
   | (o, seen) :: r =>
       let bad :=
         match o, seen with
         | OGet _ req, BVal (VOk _) => match matches readable rules req with [] => true | _ => false end
-        | OSet _ req _, BRes ROk => match matches writeable rules req with [] => true | _ => false end
+        | OSet i req v, BRes ROk =>
+            match matches writeable rules req with
+            | [] => true
+            | _ => if existsb (Nat.eqb i) tainted || has_null v then false else readback_bad rules i req v r
+            end
         | OUnset _ req, BRes ROk => match matches writeable rules req with [] => true | _ => false end
         | OCommit _, BBag false b => negb (bag_eqb b cur)
         | ONew, BBag _ b => negb (bag_eqb b cur)
         | _, _ => false
         end in
       let cur' := match o, seen with OCommit _, BBag true b => b | _, _ => cur end in
-      bad || monitor rules cur' r
+      let tainted' := match o, seen with
+                      | OUnset i _, BRes ROk => i :: tainted
+                      | OSet i _ v, BRes ROk => if has_null v then i :: tainted else tainted
+                      | _, _ => tainted
+                      end in
+      bad || monitor rules cur' tainted' r
   end.
 
 Definition monitor_fail (c : case) : bool :=
-  match c with CHist rules steps => monitor rules [] steps end.
+  match c with CHist rules steps => monitor rules [] [] steps end.
